@@ -442,11 +442,21 @@ theorem equalRule_HJ (hw : WF A a b)
     split
     · split
       · have s2 := setWeb_HJ s1.1
-        refine ⟨s2.1.emitH _ ?_, fun y hy => s2.2 y (k1 y hy)⟩
-        exact printRule_ok s2.1 rb ra.seq (fun x hx => s2.2 x (hrdy x hx))
+        have s3 : HJ A a b (if cmChanged q.1 ra rb = true then q.1.setWeb.emitH (.cgm true ra) else q.1.setWeb) ∧
+            Keeps q.1.setWeb (if cmChanged q.1 ra rb = true then q.1.setWeb.emitH (.cgm true ra) else q.1.setWeb) := by
+          cases cmChanged q.1 ra rb
+          · exact ⟨s2.1, Keeps.refl _⟩
+          · exact ⟨s2.1.emitH _ rfl, fun _ hy => hy⟩
+        refine ⟨s3.1.emitH _ ?_, fun y hy => s3.2 y (s2.2 y (k1 y hy))⟩
+        exact printRule_ok s3.1 rb ra.seq (fun x hx => s3.2 x (s2.2 x (hrdy x hx)))
       · have s2 : HJ A a b ({ q.1 with mode := none } : HSt) := s1.1.setMode none
-        refine ⟨s2.emitH _ ?_, fun y hy => k1 y hy⟩
-        exact printRule_ok s2 rb ra.seq hrdy
+        have s3 : HJ A a b (if cmChanged q.1 ra rb = true then ({ q.1 with mode := none } : HSt).emitH (.tgmap true ra) else ({ q.1 with mode := none } : HSt)) ∧
+            Keeps q.1 (if cmChanged q.1 ra rb = true then ({ q.1 with mode := none } : HSt).emitH (.tgmap true ra) else ({ q.1 with mode := none } : HSt)) := by
+          cases cmChanged q.1 ra rb
+          · exact ⟨s2, fun _ hy => hy⟩
+          · exact ⟨s2.emitH _ rfl, fun _ hy => hy⟩
+        refine ⟨s3.1.emitH _ ?_, fun y hy => s3.2 y (k1 y hy)⟩
+        exact printRule_ok s3.1 rb ra.seq (fun x hx => s3.2 x (hrdy x hx))
     · exact ⟨s1.1, k1⟩
 
 theorem mem_withIdx {α : Type} (l : List α) (p : Nat × α) (h : p ∈ withIdx l) : p.2 ∈ l := by
